@@ -636,3 +636,18 @@ mod sm9_key_test {
         }
     }
 }
+
+#[cfg(gm_rs_verif)]
+pub(crate) fn verif_hash1(id: &[u8], hid: u8) -> U256 {
+    sm9_u256_hash1(id, hid)
+}
+
+#[cfg(gm_rs_verif)]
+pub(crate) fn verif_hash2(data: &[u8], wbuf: &[u8]) -> U256 {
+    sm9_u256_hash2(data, wbuf)
+}
+
+#[cfg(gm_rs_verif)]
+pub(crate) fn verif_kdf(z: &[u8], klen: usize) -> Vec<u8> {
+    kdf(z, klen)
+}
